@@ -749,6 +749,12 @@ func (s *Sim) send(x *pend, t int64) {
 		outcome = "error" // no transport reached (unknown receiver / plugin)
 	}
 	rec.Outcome = outcome
+	// the transport took the message but its answer is lost on the way back (failure after processing)
+	if outcome == "success" && d.OneIn(s.Prof.SendLose, "sendlosereply") {
+		c := s.cqes[len(s.cqes)-1]
+		c.Completion, c.Error = nil, fmt.Errorf("injected sender failure after processing")
+		rec.Outcome = "lost-reply"
+	}
 }
 
 // instId makes background instance ids unique across kernel incarnations (after a crash a new
